@@ -16,7 +16,8 @@ RULE = ("canary runs: seeded engine histories (all operations, successes and eve
         "record of level >= INFO on every logger (message + formatted exception text) and every result message is "
         "searched for each canary in raw, hex (both cases), base64 and Python-repr form; every fired record must come "
         "from a call site of the regenerated site table with the level the table says; non-trivial = a request that "
-        "carries at least one canary; distinct = distinct (request, outcome)")
+        "carries at least one canary; plus the real KmipSession fed valid requests and mutants cut / corrupted inside the "
+        "secret-bearing byte strings (decode-failure logging); distinct = distinct (request, outcome)")
 ASSUMPTIONS = ["text of third-party exceptions (SQLAlchemy statement parameters, cryptography messages) is covered "
                "only by these dynamic runs"]
 REPO = os.environ.get("VERIF_REPO", "/repo")
@@ -189,6 +190,57 @@ def e2e_history(seed):
     return {"records": cap.records, "messages": msgs, "secrets": sorted(secrets), "requests": n, "sample": None}
 
 
+def session_history(seed):
+    """The REAL KmipSession (its decode-failure and error logging included) in front of a real engine: valid
+    requests carrying canaries as key material / data, and mutants of them cut or corrupted inside the secret"""
+    import logging as lg
+    import impl_session as S
+    import gen_session as G
+    r = random.Random(seed)
+    secrets, frames = set(), []
+    sg = G.SessGen(r)
+    for v in (10, 12, 14, 20):
+        for n in (16, 32, 40):
+            key = bytes(r.randrange(256) for _ in range(n))
+            secrets.add(key.hex())
+            items = [{"op": "register", "bid": None, "crypto": None, "otype": 2,
+                      "tmpl": {"tnames": 0, "attrs": [{"name": "Cryptographic Usage Mask", "index": None,
+                                                       "value": {"k": "int", "v": 12}}]},
+                      "obj": {"otype": 2, "value": key.hex(), "alg": 3, "len": n * 8, "format": 1, "subtype": None}}]
+            if v >= 12:
+                data = bytes(r.randrange(256) for _ in range(32))
+                secrets.add(data.hex())
+                items.append({"op": "encrypt", "bid": None, "uid": "1", "params": True,
+                              "cp": {"mode": 1, "padding": 3, "alg": 3}, "data_hex": data.hex(), "iv_hex": "00" * 16})
+            for it in items:
+                fr = G.encode_request(G.mkreq(v, [it]))
+                frames.append(fr)
+                for kind in ("cutvalue", "cutvalue", "cutvalue", "textlen", "inflate", "truncate", "type", "flip"):
+                    frames.append(sg.mutate(fr, kind)[0])
+    rig = S.Rig()
+    lg.disable(lg.NOTSET)
+    cap = Capture()
+    root = lg.getLogger()
+    root.addHandler(cap)
+    root.setLevel(lg.INFO)
+    lg.getLogger("kmip").setLevel(lg.INFO)
+    msgs = []
+    try:
+        res = rig.run_session([b"".join(frames)], S.make_cert(), digests=False)
+        for raw in res.get("out", []):
+            try:
+                ob = S.decode_response(raw, rig.default_version)
+                for it in ob.get("items", []):
+                    if it.get("msg"):
+                        msgs.append(it["msg"])
+            except Exception:
+                pass
+    finally:
+        root.removeHandler(cap)
+        rig.close()
+    return {"records": cap.records, "messages": msgs, "secrets": sorted(secrets), "requests": len(frames), "sample": None}
+
+
 def run(ctx):
     import multiprocessing
     import gen_tables
@@ -199,6 +251,7 @@ def run(ctx):
     with multiprocessing.get_context("fork").Pool(16) as pool:
         res = pool.map(engine_history, [(ctx.seed * 100003 + i, 30) for i in range(n)], chunksize=2)
         res += pool.map(e2e_history, [ctx.seed * 977 + i for i in range(16 if ctx.tier == "quick" else 200)])
+        res += pool.map(session_history, [ctx.seed * 613 + i for i in range(8 if ctx.tier == "quick" else 100)])
     nrec = nmsg = nsec = nreq = 0
     fired = set()
     for k, r in enumerate(res):
@@ -207,6 +260,9 @@ def run(ctx):
         needles = []
         for s in r["secrets"]:
             needles += [(s, f) for f in forms(s)]
+            if len(s) >= 48:
+                # a leading part of the secret is a leak too (e.g. a value cut short by a decode failure)
+                needles += [(s, f) for f in forms(s[:24])]
         for name, lvl, path, lineno, text in r["records"]:
             nrec += 1
             if "/kmip/" in path:
